@@ -53,11 +53,39 @@ def check_notation(inp):
     return None
 
 
+def subexpressions(e, acc=None):
+    acc = [] if acc is None else acc
+    if e[0] not in ('v', 'c'):
+        for c in e[1:]:
+            subexpressions(c, acc)
+    if e not in acc:
+        acc.append(e)
+    return acc
+
+
 def check_roundtrip(inp):
     OBDD = _obdd()
     e = bdd.from_json(inp['e'])
     args = list(inp['args'])
+    keep = []
+    if inp.get('warm'):
+        # printing must not depend on what was printed before: first build AND print (as roots)
+        # the OBDDs of every subexpression and of the cofactors, and keep them alive
+        for sub in subexpressions(e)[:-1]:
+            try:
+                so = OBDD(bdd.to_str(sub, 'sym', 'sym'), list(args))
+                keep.append((so, str(so), str(so.root)))
+            except Exception:
+                pass
     o = OBDD(bdd.to_str(e, 'sym', 'sym'), list(args))
+    if inp.get('warm'):
+        for v in args:
+            for b in (0, 1):
+                try:
+                    co = o.restrict(v, b)
+                    keep.append((co, str(co), str(co.root)))
+                except Exception:
+                    pass
     s_root = str(o.root)
     s_full = str(o)
     r = _try(lambda: OBDD(s_root, o.ordering))
@@ -74,6 +102,14 @@ def check_roundtrip(inp):
                        list(r) if r[0] != 'ok' else 'a different OBDD', 'printed: %r' % s_full)
     if bdd.walk_tt(r[1].root, tuple(args)) != bdd.eval_tt(e, tuple(args)):
         return Failure('roundtrip', inp, 'same function', 'different function', s_full)
+    for (ko, text_full, text_root) in keep:
+        # the earlier OBDDs print as they did, and still round-trip, after o has been printed
+        if str(ko) != text_full or str(ko.root) != text_root:
+            return Failure('roundtrip', inp, text_full, str(ko), 'the printed form of an OBDD changed after another one was printed')
+        r = _try(lambda: OBDD(str(ko.root), ko.ordering))
+        if r[0] != 'ok' or not (r[1] == ko):
+            return Failure('roundtrip', inp, 'OBDD(str(k.root), k.ordering) == k for a sub-function k',
+                           list(r) if r[0] != 'ok' else 'a different OBDD', 'printed root: %r' % str(ko.root))
     return None
 
 
@@ -189,10 +225,13 @@ def enum_shard(st, shard, nshards, payload):
             if not set(used) <= set(args):
                 continue
             inp = {'e': e, 'args': args}
-            for name in ('notation', 'roundtrip'):
+            for name in ('notation', 'roundtrip', 'roundtrip-warm'):
                 st.evaluations += 1
                 try:
-                    f = CHECKS[name](inp)
+                    if name == 'roundtrip-warm':
+                        f = check_roundtrip(dict(inp, warm=True))
+                    else:
+                        f = CHECKS[name](inp)
                 except core.HarnessError:
                     raise
                 if f is not None:
@@ -228,7 +267,8 @@ def run(ctx):
                 'list.  Oracles: truth table computed by the harness (and by Python eval for the '
                 'word style) vs a walk of the diagram on every assignment; lambda == expression '
                 '(== and identical root); synonyms equal; OBDD(str(o.root), o.ordering) == o and '
-                'OBDD(str(o)) == o; missing variable -> RuntimeError; generated non-Boolean '
+                'OBDD(str(o)) == o, also after the OBDDs of every subexpression and cofactor have been printed as roots and '
+                'are kept alive (printing must not depend on history); missing variable -> RuntimeError; generated non-Boolean '
                 'programs (arithmetic, comparisons, unary +/-, calls, attributes, subscripts, '
                 'literals, conditionals, statements, invalid text) -> SyntaxError.  '
                 'Non-trivial = the diagram has a node with two non-terminal children and >= 2 '
@@ -276,6 +316,9 @@ def random_shard(st, shard, nshards, payload):
             f = CHECKS[name](inp)
             if f is not None:
                 return f
+        f = check_roundtrip(dict(inp, warm=True))
+        if f is not None:
+            return f
         used = sorted(bdd.variables_of(e))
         if used:
             v = used[len(used) // 2]
